@@ -554,7 +554,10 @@ def generate(seed, features=None, size="s", opt=None, tries=30, accept=None):
       # a tendon whose length no joint can change (both sites on bodies that are rigid relative to each other) has a Jacobian that is
       # pure round-off; a limit or equality row on it gets D = 1e15 and the row force is round-off times 1e15 in either engine: degenerate
       _d = mujoco.MjData(mjm)
-      mujoco.mj_forward(mjm, _d)
+      try:
+        mujoco.mj_forward(mjm, _d)
+      except Exception:  # mujoco.FatalError (e.g. rank-deficient Hessian at the default pose): not a usable model
+        continue
       _J = np.asarray(_d.ten_J).reshape(mjm.ntendon, -1) if np.asarray(_d.ten_J).size == mjm.ntendon * mjm.nv else None
       if _J is not None and np.any(np.abs(_J).max(axis=1) < 1e-9):
         continue
